@@ -16,15 +16,15 @@ claimed.update({
  "C02": dict(cat="model_checking", tech="scenario space + Engine_Trace.tla validation of real signing runs; crypto/ed25519 (stdlib) as independent verifier; SigningAlgebra.tla (EddsaCorrect)",
    text="Real EdDSA signing sessions over freshly generated keys for several (n,t), subsets, message classes (empty-ish, short, 32 bytes, long, leading zeros with/without fullBytesLen) and schedules; the 64-byte signature of every finisher must be identical and verify with the Go standard library Ed25519 verifier over the echoed message under the RFC 8032 encoding of the group key; runs trace-validated; algebra model-checked over a toy field.",
    note="crypto/ed25519 is independent of the agl/dcrd code the library signs with", ref="§6 C02"),
- "C03": dict(cat="model_checking", tech="real keygens judged by independent curve arithmetic (polynomial-in-the-exponent, subset interpolation, sum of first commitments read off the wire) + Engine_Trace.tla + KeygenAlgebra.tla exhaustive over toy fields",
-   text="Real EdDSA and ECDSA key generations for all 1<=t<n (EdDSA to n=4 quick / 6 thorough, ECDSA to n=3 quick / 5 thorough), party id classes (small, random 256-bit, just below the order, above the order) and schedules; public views compared across parties, Xi*G = BigXj[i], all share points on one degree-t polynomial, every (t+1)-subset interpolates to the key, key = sum of the first Feldman commitments seen on the wire, Paillier private/public consistency; traces validated; KeygenAlgebra.tla checks the same predicates for all dealer polynomials of toy fields.",
+ "C03": dict(cat="model_checking", tech="real keygens judged by independent curve arithmetic (polynomial-in-the-exponent, subset interpolation, sum of first commitments read off the wire) + Engine_Trace.tla + KeygenAlgebra.tla exhaustive over toy fields + KeygenData.tla (data level, model-checked) bound by KeygenData_Trace.tla to real ECDSA key generations run on toy elliptic curves, every share / public point / key recomputed by TLC",
+   text="Real EdDSA and ECDSA key generations for all 1<=t<n (EdDSA to n=4 quick / 6 thorough, ECDSA to n=3 quick / 5 thorough), party id classes (small, random 256-bit, just below the order, above the order) and schedules; public views compared across parties, Xi*G = BigXj[i], all share points on one degree-t polynomial, every (t+1)-subset interpolates to the key, key = sum of the first Feldman commitments seen on the wire, Paillier private/public consistency; traces validated; KeygenAlgebra.tla checks the same predicates for all dealer polynomials of toy fields; KeygenData.tla specifies per party and round what is dealt, checked and combined, and real ECDSA key generations on toy curves (orders 11..251) are validated against it value by value.",
    note="ECDSA pre-parameters are the five vendored sets; safe-prime generation is C19's subject", ref="§6 C03, §4.7"),
 })
 claimed.update({
- "C04": dict(cat="model_checking", tech="ResharingMC.tla (TLC: ordering invariants with arbitrary cut points and one silent party) + Resharing_Trace.tla validation of real runs with erase/emit/ack observations after every call + cut-point signing",
+ "C04": dict(cat="model_checking", tech="ResharingMC.tla (TLC: ordering invariants with arbitrary cut points and one silent party) + Resharing_Trace.tla validation of real runs with erase/emit/ack observations after every call + cut-point signing + ResharingData.tla (data level: weighted old shares, dealings, V_0 = y requirement; model-checked) bound by ResharingData_Trace.tla to real ECDSA resharings on toy elliptic curves",
    text="Real EdDSA and ECDSA resharing runs (old subsets >= t+1, new thresholds below/equal/above, proofs on/off, directed and random schedules, one party going silent at a seeded step): after every single call the harness compares every old member's caller-held share with a snapshot, records which new members emitted and which final ACKs are on the wire; TLC must accept every line of Resharing_Trace.tla and its ordering invariants in every state; where nothing was erased the old committee's live key data must still sign; completed runs: C03 predicates for the new committee, unchanged key, old shares erased, t'+1 new members sign, chains of resharings. ResharingMC.tla checks the same invariants over all interleavings.",
    note="new committee ids distinct from the old ones; acceptance of shares of a wrong key is exercised by C05's catalogue (wrong-secret old member)", ref="§4.3, §6 C04"),
- "C05": dict(cat="fault_enumeration", tech="spec-derived fault catalogue (FaultsMC.tla + message/field tables) replayed on the wire bytes of real runs in journalled child processes; TLC model-checks blame soundness and the resharing key-loss clause",
+ "C05": dict(cat="fault_enumeration", tech="spec-derived fault catalogue (FaultsMC.tla + message/field tables) replayed on the wire bytes of real runs in journalled child processes; TLC model-checks blame soundness and the resharing key-loss clause; KeygenData.tla / ResharingData.tla predict, for real toy-curve runs with one altered share / opening / commitment / wrong secret, who must abort and whom it must name",
    text="One deviating participant per run: every message type and bytes field (list elements by index class), alteration kinds +1 / random / value from another party / removed, whole-message mirror, wrong secret, duplicated pre-parameters, at three positions, on all six protocols; per case the honest parties' outputs (validity, equality), culprits (soundness; completeness for covered fields) and, in resharing, erased-old-versus-emitted-new are judged. FaultsMC.tla yields the design-level counterexample for the ECDSA key-loss finding and none for EdDSA.",
    note="single deviator, reliable broadcast, honest abort; table of uncovered fields in props/c05.go; known findings in known_findings.json", ref="§4.2, §6 C05"),
 })
